@@ -249,6 +249,19 @@ def main(tier: str) -> int:
         if not (np.array_equal(x, x0) and np.array_equal(m, m0)):
             chk.fail("an operator modified its inputs", {"x": x0.tolist(), "m": m0.tolist()}, {"fn": "binomial/flip", "clause": "inputs"})
 
+    # forced-locus coverage of binomial crossover: with CR = 0 the single donor locus must be able to
+    # fall on every locus ("can produce every such child": every non-empty donor set)
+    for n in (2, 3, 5, 8):
+        loci = set()
+        for s in range(120 * n):
+            numba_seed(8_000_000 + chk.seed * 10_000 + s)
+            out = X.binomialGA(np.zeros(n, dtype=np.int8), np.ones(n, dtype=np.int8), np.float64(0.0))
+            loci |= {int(i) for i in np.nonzero(out)[0]}
+        chk.count("binomial_forced_locus_coverage")
+        if loci != set(range(n)):
+            chk.fail("binomial crossover can never force some loci: not every non-empty donor set is reachable",
+                     {"str_len": n, "CR": 0.0, "forced_loci_seen": sorted(loci), "draws": 120 * n}, {"fn": "binomialGA", "clause": "complete"})
+
     # ---------------- pool tables and wiring of live instances
     def onemax(x):
         return np.sum(x, axis=1, dtype=np.float64)
